@@ -32,3 +32,24 @@ def run(w):
         else:
             return "ERR bad-op"
     return ";".join(out)
+
+
+def pxmap(w):
+    """pxmap: for every VRAM bit (chip, page, column, bit) of a blank display with both chips on, the display pixels that change
+    when that bit alone is set: 'x.y' for exactly one pixel, '-' for none, '?n' for n > 1.  One line, 2*8*64*8 entries."""
+    import numpy as np
+    lcd = HD61202Controller()
+    for ch in lcd.chips:
+        ch.state.on = True
+    blank = np.array(lcd.get_display_buffer()).copy()
+    out = []
+    for c, ch in enumerate(lcd.chips):
+        for page in range(8):
+            for col in range(64):
+                for bit in range(8):
+                    ch.vram[page][col] = 1 << bit
+                    d = np.argwhere(np.array(lcd.get_display_buffer()) != blank)
+                    ch.vram[page][col] = 0
+                    out.append("-" if len(d) == 0 else (f"{d[0][1]}.{d[0][0]}" if len(d) == 1 else f"?{len(d)}"))
+    h, wd = blank.shape
+    return f"{wd}x{h} " + ",".join(out)
